@@ -118,6 +118,16 @@ def job_gemini(label, family, timeout_q=10.0, max_paths=3000):
             bad_why = repr(out)[:200]
         else:
             S, G = out
+            # a degenerate shape (one cluster, one sample) must not change the SHAPE of what comes back either: training would raise
+            okshape = tuple(np.shape(G)) == tuple(np.shape(st["P"]))
+            res["obligations"].append({"name": tag + "/gradient has the shape of the predictions", "verdict": "unsat" if okshape else "sat", "how": "syntactic", "shape": list(np.shape(G))})
+            if not okshape and not seen:
+                rep_s = {"kind": "gemini-shape", "label": label, "family": family}
+                if replay(rep_s):
+                    seen = True
+                    res["violations"].append({"signature": f"{PROP}:{label}:{family}:shape", "what": f"{label}: on the degenerate family '{family}' the gradient has shape {tuple(np.shape(G))}, the predictions {tuple(np.shape(st['P']))} (fit raises)", "replay": rep_s})
+                else:
+                    res["obligations"][-1]["verdict"] = "inconclusive"
             flat = [S.reshape(-1)[0] if isinstance(S, np.ndarray) else S] + list(np.asarray(G, dtype=object).reshape(-1))
             und = [x for x in flat if isinstance(x, core.UndefinedValue) or (isinstance(x, float) and (x != x or x in (float("inf"), float("-inf"))))]
             if und:
@@ -361,6 +371,15 @@ def job_fit(family, shape, gemini, batch_size, degenerate):
 def replay(rep, verbose=False):
     if rep.get("kind") == "fit-scaled":
         return _fit_scaled_run(rep, verbose)
+    if rep.get("kind") == "gemini-shape":
+        gem, gk, ovo = cg.build(rep["label"], symbolic=False)
+        shapes = {"K1": (3, 1), "n1": (1, 2)}.get(rep["family"], (2, 2))
+        P = np.full(shapes, 1.0 / shapes[1])
+        A = None if gk not in ("mmd", "w") else (np.ones((shapes[0], shapes[0])) - (np.eye(shapes[0]) if gk == "w" else 0))
+        S, G = gem.evaluate(P.copy(), A, return_grad=True)
+        if verbose:
+            print(rep["label"], rep["family"], "predictions", P.shape, "gradient", np.shape(G))
+        return tuple(np.shape(G)) != P.shape
     if rep.get("kind") == "affinity-duplicates":
         return bool(job_affinity_duplicates()["violations"])
     kind = rep["kind"]
